@@ -85,10 +85,11 @@ func (m *Machine) splitBytes(t *smt.Term) []*smt.Term {
 }
 
 type hashApp struct {
-	arg  *smt.Term // nil for empty input
-	res  *smt.Term
-	conc bool
-	done bool
+	arg    *smt.Term // nil for empty input
+	res    *smt.Term
+	conc   bool
+	done   bool
+	native func([]byte) []byte
 }
 
 // hashModel: family is e.g. "sha3_256"; outBytes the digest length.
@@ -118,7 +119,8 @@ func (m *Machine) hashModel(family string, outBytes int, in []*smt.Term, native 
 	arg := m.concat(in)
 	name := fmt.Sprintf("%s_%d", family, len(in))
 	rt := c.App(name, smt.BV(8*outBytes), arg)
-	app := hashApp{arg: arg, res: rt}
+	app := hashApp{arg: arg, res: rt, native: native}
+	m.hashOrder = append(m.hashOrder, [2]interface{}{family, len(apps)})
 	m.linkHash(family, outBytes, &app, apps)
 	m.hashApps[family] = append(apps, app)
 	return m.splitBytes(rt)
@@ -150,6 +152,37 @@ func (m *Machine) linkHash(family string, outBytes int, app *hashApp, apps []has
 		}
 		// same length: equal digests imply equal inputs
 		m.addPC(c.Implies(c.Eq(o.res, app.res), c.Eq(o.arg, app.arg)))
+	}
+}
+
+// realiseHashes is called inside the model frame of a satisfiable violation
+// query: it replaces the arbitrary outputs the solver chose for uninterpreted
+// hash applications by the REAL digests of the inputs of the current model
+// (pinning input and output, in creation order so that nested hashes work),
+// as far as the model stays satisfiable.  The counterexample then replays
+// natively, where the real hash functions run.
+func (m *Machine) realiseHashes() {
+	for _, ref := range m.hashOrder {
+		fam := ref[0].(string)
+		idx := ref[1].(int)
+		apps := m.hashApps[fam]
+		if idx >= len(apps) {
+			continue
+		}
+		app := apps[idx]
+		if app.arg == nil || app.conc || app.native == nil || strings.HasPrefix(fam, "ecdsasig") {
+			continue
+		}
+		v, err := m.solver.EvalBV(m.c, app.arg)
+		if err != nil {
+			return
+		}
+		n := app.arg.S.W / 8
+		in := make([]byte, n)
+		v.FillBytes(in)
+		d := app.native(in)
+		pin := m.c.And(m.c.Eq(app.arg, m.c.BVBig(app.arg.S.W, v)), m.c.Eq(app.res, m.c.BVBig(8*len(d), new(big.Int).SetBytes(d))))
+		m.solver.TryPin(m.c, pin)
 	}
 }
 
@@ -473,6 +506,7 @@ func (m *Machine) assert(fr *frame, t *smt.Term, msg string) {
 		m.addPC(t)
 		return
 	}
+	m.realiseHashes()
 	model, ok := m.readModel()
 	m.solver.PopModel()
 	if !ok {
